@@ -475,11 +475,17 @@ func RunHistory(rt *rapid.T, b *vx.B, o Opts) *Result {
 		notify = 2 * time.Second
 	}
 	obsolete := time.Duration(rapid.SampledFrom([]int{1, 2, 5, 30}).Draw(rt, "cleanupPeriodS")) * time.Second
+	neverExpire := !o.ShortRetention && rapid.IntRange(0, 3).Draw(rt, "retentionNever") == 0
+	if neverExpire {
+		res.Stats["histories_with_retention_never"]++
+	}
 	c := NewCluster(b, n, func(cfg *memberlist.KVConfig) {
 		cfg.RetransmitMult = retransmit
 		cfg.NotifyInterval = notify
 		if o.ShortRetention {
 			cfg.LeftIngestersTimeout = retentionShort
+		} else if neverExpire {
+			cfg.LeftIngestersTimeout = 0 // documented: tombstones are never discarded
 		}
 		// the periodic cleanup of deleted keys has its own, shorter period
 		cfg.ObsoleteEntriesTimeout = obsolete
@@ -498,7 +504,7 @@ func RunHistory(rt *rapid.T, b *vx.B, o Opts) *Result {
 	pstates := []ring.PartitionState{ring.PartitionPending, ring.PartitionActive, ring.PartitionInactive}
 
 	kinds := []string{"deliver", "deliver", "deliver", "deliver", "gossip", "gossip", "gossip", "unregister", "unregister", "pushpull", "register", "register", "heartbeat", "heartbeat",
-		"removeOwner", "removePartition", "addPartition", "partitionState", "addOwner", "partitionLock", "advance", "read", "watch", "replace", "cleanup"}
+		"removeOwner", "removePartition", "addPartition", "partitionState", "addOwner", "partitionLock", "advance", "read", "watch", "replace", "cleanup", "lockRace"}
 	if o.Faults {
 		kinds = append(kinds, "drop", "drop", "restart", "partition", "corrupt", "gossipLimited", "heal")
 	}
@@ -602,7 +608,12 @@ func RunHistory(rt *rapid.T, b *vx.B, o Opts) *Result {
 			home := homeOf(int(p), n)
 			st := rapid.SampledFrom(pstates).Draw(rt, "pstate")
 			lock := rapid.Bool().Draw(rt, "lock")
-			what := fmt.Sprintf("%s partition %d on its home node %d (state %v lock %v)", kind, p, home, st, lock)
+			if kind == "partitionLock" {
+				// the lock is its own register (own timestamp), written by an operator on another node than
+				// the one whose lifecycler writes the state: the two registers change concurrently
+				home = (home + 1) % n
+			}
+			what := fmt.Sprintf("%s partition %d on node %d (state %v lock %v)", kind, p, home, st, lock)
 			e.log("%s", what)
 			e.casPRing(home, what, func(d *ring.PartitionRingDesc, now time.Time) bool {
 				_, ok := d.Partitions[p]
@@ -726,6 +737,95 @@ func RunHistory(rt *rapid.T, b *vx.B, o Opts) *Result {
 			}
 			pick := cands[rapid.IntRange(0, len(cands)-1).Draw(rt, "hazardPick")]
 			e.deliver(pick.w, pick.to)
+		case "lockRace":
+			// constructed: the lock register of a partition changes on one node while its state register
+			// changes on another, and the state change reaches the first node before the lock change has left it
+			var cands []int32
+			for _, p := range e.parts {
+				home := homeOf(int(p), n)
+				lockNode := (home + 1) % n
+				if lockNode == home {
+					continue
+				}
+				_, hp := c.State(home)
+				_, lp := c.State(lockNode)
+				hpd, ok1 := hp.Partitions[p]
+				lpd, ok2 := lp.Partitions[p]
+				if ok1 && ok2 && hpd.State != ring.PartitionDeleted && lpd.State != ring.PartitionDeleted && !hpd.StateChangeLocked {
+					cands = append(cands, p)
+				}
+			}
+			if len(cands) == 0 && n >= 2 {
+				// build the precondition: a partition known to both nodes
+				p := e.parts[rapid.IntRange(0, len(e.parts)-1).Draw(rt, "raceNewPartition")]
+				home := homeOf(int(p), n)
+				before := len(c.Pool)
+				e.casPRing(home, fmt.Sprintf("lock race setup: add partition %d on node %d", p, home), func(d *ring.PartitionRingDesc, now time.Time) bool {
+					if pd, ok := d.Partitions[p]; ok {
+						return pd.StateChangeLocked && d.UpdatePartitionStateChangeLock(p, false, now)
+					}
+					d.AddPartition(p, ring.PartitionPending, now)
+					pd := d.Partitions[p]
+					pd.Tokens = pd.Tokens[:4]
+					d.Partitions[p] = pd
+					return true
+				})
+				c.GossipRound(home, math.MaxInt32)
+				for _, w := range c.Pool[before:] {
+					if w.From == home && w.Key == PRingKey && res.Failure == "" {
+						e.deliver(w, (home+1)%n)
+					}
+				}
+				_, hp := c.State(home)
+				_, lp := c.State((home + 1) % n)
+				if hpd, ok := hp.Partitions[p]; ok && hpd.State != ring.PartitionDeleted && !hpd.StateChangeLocked {
+					if lpd, ok := lp.Partitions[p]; ok && lpd.State != ring.PartitionDeleted {
+						cands = append(cands, p)
+					}
+				}
+				time.Sleep(time.Second)
+			}
+			if len(cands) == 0 || res.Failure != "" {
+				continue
+			}
+			p := cands[rapid.IntRange(0, len(cands)-1).Draw(rt, "racePartition")]
+			home := homeOf(int(p), n)
+			lockNode := (home + 1) % n
+			time.Sleep(time.Duration(rapid.SampledFrom([]int{0, 1000, 2000}).Draw(rt, "raceGapMs")) * time.Millisecond)
+			what := fmt.Sprintf("lock race: lock partition %d on node %d", p, lockNode)
+			e.log("%s", what)
+			e.casPRing(lockNode, what, func(d *ring.PartitionRingDesc, now time.Time) bool {
+				if _, ok := d.Partitions[p]; !ok {
+					return false
+				}
+				return d.UpdatePartitionStateChangeLock(p, !d.Partitions[p].StateChangeLocked, now)
+			})
+			time.Sleep(time.Duration(rapid.SampledFrom([]int{0, 1000}).Draw(rt, "raceGap2Ms")) * time.Millisecond)
+			before := len(c.Pool)
+			what = fmt.Sprintf("lock race: change the state of partition %d on node %d", p, home)
+			e.log("%s", what)
+			e.casPRing(home, what, func(d *ring.PartitionRingDesc, now time.Time) bool {
+				pd, ok := d.Partitions[p]
+				if !ok {
+					return false
+				}
+				to := ring.PartitionActive
+				if pd.State == ring.PartitionActive {
+					to = ring.PartitionInactive
+				}
+				changed, err := d.UpdatePartitionState(p, to, now)
+				return changed && err == nil
+			})
+			if res.Failure != "" {
+				break
+			}
+			c.GossipRound(home, math.MaxInt32)
+			for _, w := range c.Pool[before:] {
+				if w.From == home && w.Key == PRingKey && res.Failure == "" {
+					e.deliver(w, lockNode)
+					res.Stats["lock_races_delivered"]++
+				}
+			}
 		case "drop":
 			if len(c.Pool) == 0 {
 				continue
@@ -816,13 +916,19 @@ func RunHistory(rt *rapid.T, b *vx.B, o Opts) *Result {
 				e.failf("read on node %d returned %s, the store without tombstones is %s", node, vis, want)
 			}
 		case "watch":
+			var w *Watch
 			switch rapid.IntRange(0, 2).Draw(rt, "watchKind") {
 			case 0:
-				c.AddWatch(node, RingKey, false, true)
+				w = c.AddWatch(node, RingKey, false, true)
 			case 1:
-				c.AddWatch(node, PRingKey, false, false)
+				w = c.AddWatch(node, PRingKey, false, false)
 			default:
-				c.AddWatch(node, "", true, rapid.Bool().Draw(rt, "watchWithRingCodec"))
+				w = c.AddWatch(node, "", true, rapid.Bool().Draw(rt, "watchWithRingCodec"))
+			}
+			// a callback that takes its time: further changes arrive while it runs
+			w.SetSlow(time.Duration(rapid.SampledFrom([]int{0, 0, 700, 2500}).Draw(rt, "callbackMs")) * time.Millisecond)
+			if w.Slow() > 0 {
+				res.Stats["slow_watchers"]++
 			}
 			e.log("register a watcher on node %d", node)
 		}
@@ -956,7 +1062,7 @@ func (e *engine) flow() {
 			break
 		}
 	}
-	time.Sleep(3 * time.Second) // past any notification interval
+	time.Sleep(12 * time.Second) // past any notification interval and two rounds of the slowest callback
 	vx.Wait()
 	want := "ring[" + model.CanonDescN(wantR) + "] pring[" + model.CanonPDescN(wantP) + "]"
 	var firstVis string
